@@ -206,6 +206,8 @@ type SpecEnv struct {
 	bound map[string]Val
 	quant bool // set when a quantifier was used
 	what  string
+	prev  *State // state at the loop head (for prev() in step clauses)
+	inOld bool // inside old(): parameter names denote entry values even if a loop variable shadows them
 }
 
 func (env *SpecEnv) with(st *State) *SpecEnv {
@@ -385,6 +387,11 @@ func (env *SpecEnv) expr(e ast.Expr) Val {
 func (env *SpecEnv) lookupVar(name string) (Val, bool) {
 	if v, ok := env.bound[name]; ok {
 		return v, true
+	}
+	if env.inOld && env.fr != nil && env.fr.parent == nil {
+		if v, ok := env.fc.params[name]; ok {
+			return v, true
+		}
 	}
 	if v, ok := env.vars[name]; ok {
 		return v, true
@@ -677,6 +684,13 @@ func (env *SpecEnv) call(c *ast.CallExpr) Val {
 				env.fail("old() not available here")
 			}
 			n := env.with(env.old)
+			n.inOld = true
+			return n.expr(c.Args[0])
+		case "prev":
+			if env.prev == nil {
+				env.fail("prev() is only available in loop step clauses")
+			}
+			n := env.with(env.prev)
 			return n.expr(c.Args[0])
 		case "len":
 			x := env.expr(c.Args[0])
@@ -1039,4 +1053,29 @@ func (env *SpecEnv) pureCall(fn *ssaFunction, recv *Val, argExprs []ast.Expr) Va
 		return fc.callByContract(fr, st, "true", con, fn, args, nil)
 	}
 	return fc.inline(fr, st, "true", fn, args, nil, nil)
+}
+
+
+// splitConj splits a spec into conjuncts: top-level && and the right-hand
+// side of an implication (a ==> b && c becomes a ==> b, a ==> c), so that
+// each part is its own obligation.
+func splitConj(sp Spec) []Spec {
+	switch t := sp.(type) {
+	case *SAnd:
+		return append(splitConj(t.L), splitConj(t.R)...)
+	case *SImp:
+		var out []Spec
+		for _, r := range splitConj(t.R) {
+			out = append(out, &SImp{t.L, r})
+		}
+		return out
+	case *SGo:
+		if be, ok := t.E.(*ast.BinaryExpr); ok && be.Op == token.LAND {
+			return append(splitConj(&SGo{be.X}), splitConj(&SGo{be.Y})...)
+		}
+		if pe, ok := t.E.(*ast.ParenExpr); ok {
+			return splitConj(&SGo{pe.X})
+		}
+	}
+	return []Spec{sp}
 }
